@@ -82,6 +82,8 @@ def float_consts():
     out.append(("ulp_prev_of_zero_bits", 0x8000000000000001, "ulp_utils.rs prev_float(0.0) bits"))
     return out
 
+from gen_consts_flin import float_lin_consts
+
 def main():
     defs = []
     m = need("src/variables/domain/sparse_set.rs", r"pub const MAX_SPARSE_SET_DOMAIN_SIZE:\s*u64\s*=\s*([\d_]+);", "MAX_SPARSE_SET_DOMAIN_SIZE")
@@ -112,7 +114,7 @@ def main():
     for name, val, where in defs:
         body += "Definition %s : Z := %d. (* %s *)\n" % (name, val, where)
     body += "(* f64 literals of the float store as IEEE-754 binary64 bit patterns *)\n"
-    for name, val, where in float_consts():
+    for name, val, where in float_consts() + float_lin_consts():
         body += "Definition %s : Z := 0x%016x. (* %s *)\n" % (name, val, where)
     old = open(OUT).read() if os.path.exists(OUT) else None
     if old != body:
